@@ -15,6 +15,7 @@
  */
 
 use std::io::ErrorKind;
+use std::os::unix::fs::MetadataExt;
 use std::path::Path;
 use ignore::gitignore::{Gitignore, GitignoreBuilder};
 use log::info;
@@ -79,4 +80,11 @@ pub fn lexists(path: &Path) -> Result<bool> {
         Err(e) if e.kind() == ErrorKind::NotFound => Ok(false),
         Err(e) => Err(e.into()),
     }
+}
+
+/// Whether two paths designate the same filesystem entry (same
+/// device and inode), without following a final symlink.
+pub fn same_entry(a: &Path, b: &Path) -> Result<bool> {
+    let (ma, mb) = (a.symlink_metadata()?, b.symlink_metadata()?);
+    Ok(ma.dev() == mb.dev() && ma.ino() == mb.ino())
 }
